@@ -71,6 +71,47 @@ E_LEAVES = ['i32', 'i64', 'f64', 'f32', 'bool', 'str', 'ai', 'al', 'af', 'aai', 
 OPERANDS = ['i32', 'i64', 'f64', 'f32', 'bool', 'str', 'ai', 'py_i', 'py_l', 'py_f', 'py_b', 'py_s', 'py_li', 'st']
 NUM_OPERANDS = ['i32', 'i64', 'f64', 'f32', 'bool', 'py_i', 'py_l', 'py_f', 'py_b', 'ai', 'al']
 
+PROFILES = {
+    'wide': {},
+    # the operations the property text names; up to 4 calls
+    'core': dict(expr_ops=['arith', 'cmp', 'ifelse', 'array2', 'struct2', 'tuple2', 'map', 'filter', 'len', 'annotate',
+                           'select', 'drop', 'cast', 'tostr', 'getfield', 'tindex', 'stop'],
+                 leaves=['i32', 'i64', 'f64', 'bool', 'str', 'ai', 'st'],
+                 operands=['i32', 'i64', 'f64', 'str', 'py_i', 'py_l', 'py_f'], arith=['add', 'mul', 'div', 'floordiv', 'rsub'],
+                 cmps=['lt', 'eq'], lambdas=['inc', 'half', 'tostr', 'wrap', 'big'], preds=['eqself', 'lt'],
+                 casts=['int32', 'int64', 'float', 'bool'],
+                 table_ops=['annotate', 'select', 'select_expr', 'key_by', 'key_by_expr', 'filter', 'annotate_globals', 'drop',
+                            'stop'],
+                 row_exprs=['idx1', 'flt', 'big', 'str', 'st', 'cmp', 'lit'],
+                 matrix_ops=['annotate_rows', 'annotate_cols', 'annotate_entries', 'annotate_globals', 'select_entries',
+                             'key_rows_by', 'filter_rows', 'filter_entries', 'select_rows', 'stop'],
+                 mexprs=['r1', 'rbig', 'rstr', 'c1', 'carr', 'e1', 'est', 'lit']),
+    # few operations, up to 4 calls
+    'mini': dict(expr_ops=['arith', 'cmp', 'ifelse', 'array2', 'struct2', 'map', 'len', 'annotate', 'getfield', 'stop'],
+                 leaves=['i32', 'ai', 'st'], operands=['i32', 'i64', 'py_f'], arith=['add', 'div'], cmps=['lt'],
+                 lambdas=['half', 'wrap'], preds=['lt'], casts=['int64'],
+                 table_ops=['annotate', 'select', 'key_by', 'filter', 'annotate_globals', 'stop'],
+                 row_exprs=['flt', 'big', 'st', 'cmp'],
+                 matrix_ops=['annotate_rows', 'annotate_cols', 'annotate_entries', 'annotate_globals', 'select_entries',
+                             'key_rows_by', 'filter_entries', 'stop'],
+                 mexprs=['rbig', 'c1', 'est']),
+}
+PF = {}
+
+
+def set_profile(name):
+    PF.clear()
+    PF.update(PROFILES[name])
+
+
+def _f(key, lst):
+    """restrict a choice list to the active profile (order kept)"""
+    if key not in PF:
+        return list(lst)
+    out = [x for x in lst if x in PF[key]]
+    return out or list(lst)[:1]
+
+
 ARITH = {
     'add': lambda a, b: a + b, 'sub': lambda a, b: a - b, 'mul': lambda a, b: a * b, 'div': lambda a, b: a / b,
     'floordiv': lambda a, b: a // b, 'mod': lambda a, b: a % b, 'pow': lambda a, b: a ** b,
@@ -108,13 +149,13 @@ def ops_for(e):
 def apply_op(op, e, choose):
     """One API call on e; second operands / sub-kinds are further symbolic choices."""
     if op == 'arith':
-        f = ARITH[choose('arith', list(ARITH))]
-        return f(e, leaf(choose('operand', NUM_OPERANDS)))
+        f = ARITH[choose('arith', _f('arith', ARITH))]
+        return f(e, leaf(choose('operand', _f('operands', NUM_OPERANDS))))
     if op == 'cmp':
-        f = CMP[choose('cmp', list(CMP))]
-        return f(e, leaf(choose('operand', NUM_OPERANDS + ['str', 'py_s'])))
+        f = CMP[choose('cmp', _f('cmps', CMP))]
+        return f(e, leaf(choose('operand', _f('operands', NUM_OPERANDS + ['str', 'py_s']))))
     if op == 'cmp_eq':
-        return e == leaf(choose('operand', OPERANDS))
+        return e == leaf(choose('operand', _f('operands', OPERANDS)))
     if op == 'neg':
         return -e
     if op == 'abs':
@@ -123,21 +164,21 @@ def apply_op(op, e, choose):
         return hl.max(e, leaf(choose('operand', NUM_OPERANDS)))
     if op == 'cast':
         return {'int32': hl.int32, 'int64': hl.int64, 'float64': hl.float64, 'float32': hl.float32, 'float': hl.float,
-                'int': hl.int, 'bool': hl.bool}[choose('cast', ['int32', 'int64', 'float64', 'float32', 'float', 'int', 'bool'])](e)
+                'int': hl.int, 'bool': hl.bool}[choose('cast', _f('casts', ['int32', 'int64', 'float64', 'float32', 'float', 'int', 'bool']))](e)
     if op == 'tostr':
         return hl.str(e)
     if op == 'ifelse':
-        return hl.if_else(leaf('bool'), e, leaf(choose('operand', OPERANDS)))
+        return hl.if_else(leaf('bool'), e, leaf(choose('operand', _f('operands', OPERANDS))))
     if op == 'cond':
-        a = leaf(choose('operand', OPERANDS))
-        b = leaf(choose('operand2', OPERANDS))
+        a = leaf(choose('operand', _f('operands', OPERANDS)))
+        b = leaf(choose('operand2', _f('operands', OPERANDS)))
         return hl.if_else(e, a, b)
     if op == 'not':
         return ~e
     if op == 'and':
         return e & leaf(choose('operand', ['bool', 'py_b']))
     if op == 'coalesce':
-        return hl.coalesce(e, leaf(choose('operand', OPERANDS)))
+        return hl.coalesce(e, leaf(choose('operand', _f('operands', OPERANDS))))
     if op == 'is_missing':
         return hl.is_missing(e)
     if op == 'or_missing':
@@ -145,21 +186,21 @@ def apply_op(op, e, choose):
     if op == 'bind':
         return hl.bind(lambda v: hl.struct(x=v, y=v), e)
     if op == 'array2':
-        return hl.array([e, leaf(choose('operand', OPERANDS))])
+        return hl.array([e, leaf(choose('operand', _f('operands', OPERANDS)))])
     if op == 'struct2':
-        return hl.struct(a=e, b=leaf(choose('operand', OPERANDS)))
+        return hl.struct(a=e, b=leaf(choose('operand', _f('operands', OPERANDS))))
     if op == 'tuple2':
-        return hl.tuple([e, leaf(choose('operand', OPERANDS))])
+        return hl.tuple([e, leaf(choose('operand', _f('operands', OPERANDS)))])
     if op == 'concat':
         return e + leaf(choose('operand', ['str', 'py_s']))
     if op == 'strlen':
         return hl.len(e)
     if op == 'map':
-        return e.map(LAMBDAS[choose('lambda', list(LAMBDAS))])
+        return e.map(LAMBDAS[choose('lambda', _f('lambdas', LAMBDAS))])
     if op == 'flatmap':
         return e.flatmap(LAMBDAS[choose('lambda', ['pair', 'wrap', 'inc'])])
     if op == 'filter':
-        return e.filter(PREDS[choose('pred', list(PREDS))])
+        return e.filter(PREDS[choose('pred', _f('preds', PREDS))])
     if op == 'any':
         return hl.any(PREDS[choose('pred', list(PREDS))], e)
     if op == 'len':
@@ -173,7 +214,7 @@ def apply_op(op, e, choose):
     if op == 'extend':
         return e.extend(leaf(choose('operand', ['ai', 'al', 'af', 'aai', 'py_li'])))
     if op == 'append':
-        return e.append(leaf(choose('operand', OPERANDS)))
+        return e.append(leaf(choose('operand', _f('operands', OPERANDS))))
     if op == 'fold':
         return hl.fold(lambda acc, x: acc + x, leaf(choose('operand', ['i32', 'py_i', 'f64', 'i64', 'str'])), e)
     if op == 'sum':
@@ -182,7 +223,7 @@ def apply_op(op, e, choose):
         return hl.sorted(e)
     if op == 'annotate':
         which = choose('field', ['c', 'a'])
-        return e.annotate(**{which: leaf(choose('operand', OPERANDS))})
+        return e.annotate(**{which: leaf(choose('operand', _f('operands', OPERANDS)))})
     if op == 'select':
         return e.select(list(e.dtype)[0])
     if op == 'drop':
@@ -269,12 +310,12 @@ def check_matrix(mt, text_check=None):
 def run_expr_program(choose, k, text_check=None):
     """Returns (trace, status) where status in 'done' | 'rejected'.  Raises Violation."""
     trace = []
-    name = choose('leaf', E_LEAVES)
+    name = choose('leaf', _f('leaves', E_LEAVES))
     e = leaf(name)
     trace.append(('leaf', name, str(e.dtype)))
     check_expr(e, text_check=text_check)
     for step in range(k):
-        ops = ops_for(e) + ['stop']
+        ops = _f('expr_ops', ops_for(e) + ['stop'])
         op = choose(f'op{step}', ops)
         if op == 'stop':
             break
@@ -319,13 +360,13 @@ def apply_table_op(op, t, choose):
     names = list(t.row)
     if op == 'annotate':
         nm = choose('name', ['x', names[-1]])
-        return t.annotate(**{nm: rx[choose('expr', list(rx))]()})
+        return t.annotate(**{nm: rx[choose('expr', _f('row_exprs', rx))]()})
     if op == 'annotate2':
-        return t.annotate(u=rx[choose('expr', list(rx))](), v=rx[choose('expr2', ['flt', 'str', 'lit'])]())
+        return t.annotate(u=rx[choose('expr', _f('row_exprs', rx))](), v=rx[choose('expr2', ['flt', 'str', 'lit'])]())
     if op == 'select':
         return t.select(names[choose('fieldidx', [0, -1])])
     if op == 'select_expr':
-        return t.select(w=rx[choose('expr', list(rx))]())
+        return t.select(w=rx[choose('expr', _f('row_exprs', rx))]())
     if op == 'key_by':
         return t.key_by(names[choose('fieldidx', [0, -1])])
     if op == 'key_by_expr':
@@ -366,7 +407,7 @@ def run_table_program(choose, k, text_check=None):
     trace.append(('range_table', (), str(t.row.dtype)))
     check_table(t, text_check)
     for step in range(k):
-        op = choose(f'op{step}', TABLE_OPS)
+        op = choose(f'op{step}', _f('table_ops', TABLE_OPS))
         if op == 'stop':
             break
         sub = []
@@ -408,13 +449,13 @@ def mexprs(mt, axis):
 def apply_matrix_op(op, mt, choose):
     if op == 'annotate_rows':
         ex = mexprs(mt, 'row')
-        return mt.annotate_rows(**{choose('name', ['x', list(mt.row)[-1]]): ex[choose('expr', list(ex))]()})
+        return mt.annotate_rows(**{choose('name', ['x', list(mt.row)[-1]]): ex[choose('expr', _f('mexprs', ex))]()})
     if op == 'annotate_cols':
         ex = mexprs(mt, 'col')
-        return mt.annotate_cols(**{choose('name', ['y', list(mt.col)[-1]]): ex[choose('expr', list(ex))]()})
+        return mt.annotate_cols(**{choose('name', ['y', list(mt.col)[-1]]): ex[choose('expr', _f('mexprs', ex))]()})
     if op == 'annotate_entries':
         ex = mexprs(mt, 'entry')
-        return mt.annotate_entries(**{choose('name', ['e', 'f']): ex[choose('expr', list(ex))]()})
+        return mt.annotate_entries(**{choose('name', ['e', 'f']): ex[choose('expr', _f('mexprs', ex))]()})
     if op == 'annotate_globals':
         return mt.annotate_globals(g=leaf(choose('gexpr', ['py_i', 'py_l', 'ai', 'st'])))
     if op == 'select_rows':
@@ -423,7 +464,7 @@ def apply_matrix_op(op, mt, choose):
         return mt.select_cols(list(mt.col)[-1])
     if op == 'select_entries':
         ex = mexprs(mt, 'entry')
-        return mt.select_entries(z=ex[choose('expr', list(ex))]())
+        return mt.select_entries(z=ex[choose('expr', _f('mexprs', ex))]())
     if op == 'key_rows_by':
         which = choose('how', ['field', 'expr', 'none'])
         if which == 'field':
@@ -449,7 +490,7 @@ def apply_matrix_op(op, mt, choose):
         return mt.drop(pool[choose('fieldidx', [0, -1, 1])])
     if op == 'transmute_entries':
         ex = mexprs(mt, 'entry')
-        return mt.transmute_entries(t=ex[choose('expr', list(ex))]())
+        return mt.transmute_entries(t=ex[choose('expr', _f('mexprs', ex))]())
     if op == 'rename':
         return mt.rename({list(mt.row)[-1]: 'rr', list(mt.col)[-1]: 'cc'})
     if op == 'add_row_index':
@@ -467,9 +508,9 @@ def run_matrix_program(choose, k, text_check=None):
     cur = mt
     for step in range(k):
         if not isinstance(cur, hl.MatrixTable):
-            ops = TABLE_OPS
+            ops = _f('table_ops', TABLE_OPS)
         else:
-            ops = MATRIX_OPS
+            ops = _f('matrix_ops', MATRIX_OPS)
         op = choose(f'op{step}', ops)
         if op == 'stop':
             break
